@@ -17,6 +17,12 @@ def plan(prop, tier):
     shards = [('prog', SEED * 1000 + i, per) for i in range(n)]
     if prop in ('C11', 'C07'):
         shards.append(('deep', 0, 0))     # refused duplicates of over-deep / cyclic structures must not leak either
+    if prop == 'C07':
+        # histories in which the allocator refuses a request: whatever the call answers, nothing may be lost
+        for i in range(2 if q else 8):
+            shards.append(('faultleak', SEED * 1000 + 700 + i, 1 if q else 6))
+    if prop == 'C19':
+        shards.append(('widesort', 0, 0))
     if prop == 'C14':
         # allocation failures under every hook configuration: failure paths release memory too
         for i in range(4 if q else 16):
@@ -266,11 +272,46 @@ def run_shard(shard_prop, bins, workdir, tier):
             ops += (['clr 1', 'del 8'] if member else ['del 1'])
             cases.append((i, 'default' if i % 2 else 'custom', ops))
             extra[i] = (o, cs, distinct, via)
-    elif kind == 'faultcfg':
+    elif kind == 'widesort':
+        # wide objects on a painted stack: the sort must cope with any width (its stack use may grow
+        # with the logarithm of the member count, not with the count), in every arrangement
+        n = 20000
+        cid = 0
+        base = [b'k%05d' % i for i in range(n)]
+        r2 = random.Random(5)
+        arrangements = {}
+        sh = list(base); r2.shuffle(sh)
+        arrangements['random'] = sh
+        arrangements['sorted'] = list(base)
+        arrangements['reverse'] = base[::-1]
+        arrangements['sorted-then-small-key-last'] = base[1:] + base[:1]
+        arrangements['descent-near-end'] = base[:n - 3] + [base[n - 1], base[n - 3], base[n - 2]]
+        arrangements['descent-near-start'] = [base[1], base[0]] + base[2:]
+        arrangements['two-runs'] = base[n // 2:] + base[:n // 2]
+        arrangements['sawtooth'] = [base[(i % 100) * (n // 100) + i // 100] for i in range(n)]
+        arrangements['all-equal'] = [b'same'] * n
+        arrangements['case-pairs'] = [(b'K%05d' % (i // 2)) if i % 2 else (b'k%05d' % (i // 2)) for i in range(n)]
+        for name, keys in arrangements.items():
+            for cs in (1, 0):
+                o = Node('o')
+                o.kids = [Node('t' if i % 2 else 'z', key=k) for i, k in enumerate(keys)]
+                ops = ['build 1 ' + to_tn(o), 'stackop sort 1 %d' % cs, 'chk 1', 'tn 1', 'stackop sort 1 %d' % cs, 'chk 1', 'cnum 2 %016x' % 0x4045000000000000,
+                       'addo 1 %s 2' % hx(b'zzz-appended'), 'chk 1', 'size 1', 'stackop sort 1 %d' % cs, 'chk 1', 'del 1']
+                cases.append((cid, 'default' if cid % 2 else 'custom', ops))
+                extra[cid] = (name, cs, keys)
+                cid += 1
+    elif kind in ('faultcfg', 'faultleak'):
         from . import p_fault
         cid = 0
         for rep in range(count):
             for sc in p_fault.scenarios(rng):
+                if kind == 'faultleak':
+                    for cfg in ('default', 'custom'):
+                        c, info = p_fault.build_case(cid, cfg, sc)
+                        cases.append(c)
+                        extra[cid] = (info, cfg)
+                        cid += 1
+                    continue
                 cfg = CFGS_ALL[cid % len(CFGS_ALL)]
                 c, info = p_fault.build_case(cid, cfg, sc)
                 cases.append(c)
@@ -362,7 +403,12 @@ def run_shard(shard_prop, bins, workdir, tier):
                     out.count('op:' + o.split(' ', 1)[0])
             if cl.died:
                 continue
-            if prop in ('C06', 'C07', 'C11') and kind == 'prog':
+            if kind == 'faultleak':
+                from . import p_fault
+                p_fault.judge(prop, cl, extra[cid][0], extra[cid][1], out, wit, first, ledger_only=True)
+            elif kind == 'widesort':
+                judge_widesort(prop, cl, extra[cid], out, wit, first, fl, logs, cases)
+            elif prop in ('C06', 'C07', 'C11') and kind == 'prog':
                 p = progs[cid]
                 ok = compare_program(prop, cl, p, out, wit, rerun)
                 if first:
@@ -403,6 +449,47 @@ def run_shard(shard_prop, bins, workdir, tier):
 
 def renumber(ops):
     return ops
+
+
+def judge_widesort(prop, cl, ex, out, wit, first, fl, logs, cases):
+    name, cs, keys = ex
+    so = [f for _i, f in sorted(cl.ops.items()) if f and f[0] == 'stackop']
+    tns = [f for _i, f in sorted(cl.ops.items()) if f and f[0] == 'tn']
+    if len(so) != 3 or not tns:
+        out.vios.append(Violation(prop, 'C19/no-dump', 'wide object could not be sorted and dumped', wit(cl, 1)))
+        return
+    used = [int(dict(x.split('=') for x in f[2:])['used']) for f in so]
+    # calibration: the same width in random order, same flavour and variant
+    cal = logs[0 if cs else 1]
+    cso = [f for _i, f in sorted(cal.ops.items()) if f and f[0] == 'stackop']
+    if len(cso) != 3:
+        raise HarnessFailure('no calibration sort')
+    plateau = int(dict(x.split('=') for x in cso[0][2:])['used'])
+    out.evals += 3
+    if first:
+        out.count('wide_sorts', 3)
+        out.stats['wide_sort_members_max'] = len(keys)
+        out.stats['wide_sort_stack_shuffled_bytes'] = plateau
+        out.stats['wide_sort_stack_max'] = max(out.stats.get('wide_sort_stack_max', 0), max(used))
+        out.count('widearr:' + name)
+        out.seen('widesort', name, cs)
+        out.count('nontrivial')
+    for j, u in enumerate(used):
+        if u > 4 * plateau + 65536:
+            out.vios.append(Violation(prop, 'C19/sort/stack-grows-with-width', '%s (%d members, %s): sort used %d bytes of stack, a shuffled object of the same width %d' % (name, len(keys), 'case-sensitive' if cs else 'case-insensitive', u, plateau), wit(cl, 1)))
+            break
+    t1 = from_tn(tns[0][1]) if not tns[0][1].startswith('crc') else None
+    if t1 is None:
+        raise HarnessFailure('wide tree dump is a digest')
+    ks = [k.key for k in t1.kids]
+    kf = (lambda k: k) if cs else fold
+    if sorted(ks) != sorted(keys):
+        out.vios.append(Violation(prop, 'C19/sort/members-changed', '%s: key multiset changed by the sort' % name, wit(cl, 1)))
+    elif any(kf(ks[i]) > kf(ks[i + 1]) for i in range(len(ks) - 1)):
+        out.vios.append(Violation(prop, 'C19/sort/not-sorted', '%s: keys not non-decreasing after the sort' % name, wit(cl, 1)))
+    sz = next((f for _i, f in sorted(cl.ops.items()) if f and _i == 9), None)
+    if sz != [str(len(keys) + 1)]:
+        out.vios.append(Violation(prop, 'C19/after-sort/size', '%s: size after append is %s, expected %d' % (name, sz, len(keys) + 1), wit(cl, 9)))
 
 
 def tn_kids(tn):
@@ -538,10 +625,10 @@ def finish(prop, tier, results):
         'distinct_nontrivial': min(len(tot.distinct), tot.stats.get('nontrivial', 0)),
         'rule': {
             'C06': 'op-programs of 12-60 steps generated against the list/map model (<= 5 live roots, short lists, 9 keys that collide under case folding); after EVERY step every live root is walked (sibling-chain invariants, ledger liveness) and its dump compared with the model; distinct = distinct programs with >= 8 ops; evaluations = ops executed',
-            'C07': 'the same histories with parse/print/duplicate/compare, reference nodes (referenced root frozen while referenced), constant keys in a read-only arena, key arguments aliasing the moved item\'s own key; ledger balance 0 after deleting all roots; ASan in one build, poisoning quarantine + guard-paged borrowed arena in the other; distinct = distinct programs with >= 8 ops',
+            'C07': 'the same histories with parse/print/duplicate/compare, reference nodes (referenced root frozen while referenced), constant keys in a read-only arena, key arguments aliasing the moved item\'s own key; ledger balance 0 after deleting all roots; the C08 scenarios with every request index refused once, judged for allocator balance alone; ASan in one build, poisoning quarantine + guard-paged borrowed arena in the other; distinct = distinct programs with >= 8 ops',
             'C11': 'histories in which a random root (with references and constant keys) is duplicated mid-way (pointer-set disjointness, Compare, text equality in-process) and both trees keep being edited with every root re-checked after every step; chains of LIMIT-1 .. 2xLIMIT nested containers and 1-3 node child cycles on a painted stack; distinct = distinct programs with >= 8 ops',
             'C14': 'model-driven histories and cJSON_Utils scenarios under 6 hook configurations (default, hooks with NULL members, both custom, custom with non-libc arena, only malloc, only free) with mid-case resets at quiescent points; every libc malloc/calloc/realloc/free issued by library object code is counted through link-time interposition; distinct = distinct programs with >= 8 ops',
-            'C19': 'objects of 0-40 members (keys with case pairs, prefixes, bytes >= 0x80; random / sorted / reverse / one inversion; with and without duplicates) sorted twice with both variants; dump-based checks of permutation, node identity, order, idempotence, then append / detach / replace / print / delete with dumps; distinct = distinct cases',
+            'C19': 'objects of 0-40 members (keys with case pairs, prefixes, bytes >= 0x80; random / sorted / reverse / one inversion; with and without duplicates) sorted twice with both variants; dump-based checks of permutation, node identity, order, idempotence, then append / detach / replace / print / delete with dumps; 20000-member objects in 10 arrangements (shuffled, sorted, reverse, descents near either end, two runs, sawtooth, all equal, case pairs) sorted on a painted stack, whose depth must not grow with the width; distinct = distinct cases',
         }[prop],
         'samples': tot.samples[:8],
         'ops_executed_by_kind': opc,
@@ -549,7 +636,13 @@ def finish(prop, tier, results):
     muts = {k[4:]: v for k, v in sorted(tot.stats.items()) if k.startswith('mut:')}
     if muts:
         cov['programs_reaching_mutation_kind'] = muts
-    for pre in ('cfg:', 'size:', 'mode:', 'deep:', 'cycle:', 'wide:'):
+    for k in ('wide_sorts', 'wide_sort_members_max', 'wide_sort_stack_shuffled_bytes', 'wide_sort_stack_max'):
+        if k in tot.stats:
+            cov[k] = tot.stats[k]
+    scn = {k[4:]: v for k, v in sorted(tot.stats.items()) if k.startswith('scn:')}
+    if scn:
+        cov['fault_scenarios'] = {k: {'runs': v, 'requests_total': tot.stats.get('requests:' + k, 0), 'failure_returns': tot.stats.get('failret:' + k, 0)} for k, v in scn.items()}
+    for pre in ('cfg:', 'size:', 'mode:', 'deep:', 'cycle:', 'wide:', 'widearr:'):
         d = {k[len(pre):]: v for k, v in sorted(tot.stats.items()) if k.startswith(pre)}
         if d:
             cov[pre[:-1] + '_counts'] = d
